@@ -28,6 +28,11 @@ ASSUMPTIONS = [
     "for the model correspondence of <z> only and counted as excluded",
     "the benchmark id is a string at the model boundary (ScenarioID.from_benchmark_id(str(id)) is C13's subject); the date "
     "attribute is an environment input of the model (what today() returned)",
+    "an initial state carrying attributes that InitialState does not have loses them on reading (C01_initial_extra_dropped; "
+    "replayed by witness_initial_extra): outside the property — Obstacle.initial_state asserts the InitialState type and the XSD "
+    "type initialStateExact of a planning problem admits no further element",
+    "the exponent-notation tables (format(x,'.df'), format_float_positional) are parameters of the model under the contract "
+    "FixOk, which the harness checks on every case with fractions.Fraction; CR.X.realVal is compared with Fraction on every repr",
     "first_occurrence of a traffic sign, the centre line of a lanelet, TrafficLight.color and the state class name are not part of "
     "the XML format (derived on reading) and are not compared",
 ]
@@ -35,7 +40,7 @@ TRUSTED = ["harness/snapshot.py (structural snapshot through public accessors) a
 REQUIRED_BUCKETS = ["role:static", "role:dynamic", "role:environment", "role:phantom", "pred:trajectory", "pred:set",
                     "shape:rect", "shape:circ", "shape:poly", "shape:group", "state:interval", "state:region", "state:custom",
                     "init:no-acceleration", "sign:virtual", "signal:horn", "goal:lanelets", "goal:shape", "light:inactive",
-                    "stopline", "intersection", "precision:1", "precision:12", "xsd-valid", "3d",
+                    "stopline", "intersection", "precision:1", "precision:12", "xsd-valid", "3d", "witness:initial-extra",
                     # every member of these XSD enumerations was used at least once
                     "enum-full:lineMarking", "enum-full:laneletType", "enum-full:vehicleType", "enum-full:obstacleTypeStatic",
                     "enum-full:obstacleTypeDynamic", "enum-full:obstacleTypeEnvironment", "enum-full:trafficLightColor",
@@ -444,7 +449,73 @@ def file_cfg(d, fix, pos, today):
             "tables": _CFG["tables"], "today": today}
 
 
-def correspond(ctx, case, spec, d, path, sc, pps, sc2, pps2):
+_PLAIN = re.compile(r"^-?[0-9]+(\.[0-9]*)?$")
+
+
+def check_tables(ctx, case, d, P, reprs, more=()):
+    """(i) the contract `FixOk` of the two exponent-notation tables, with exact rational arithmetic: format(x, '.<d>f') is a
+    plain decimal within 10^-d of x, format_float_positional(x) is a plain decimal of the same value; every exponent-form repr
+    of the case is covered.  (ii) CR.X.realVal (the valuation the theorems speak about) = the exact value Python assigns to
+    the same text (fractions.Fraction), for every repr and every table entry of the case."""
+    from fractions import Fraction
+    from common import unrat
+    bound = Fraction(1, 10 ** d)
+    bad = []
+    for k, v in P["fix"]:
+        if not _PLAIN.match(v) or not abs(Fraction(v) - Fraction(k)) < bound:
+            bad.append(["fix", k, v])
+    for k, v in P["pos"]:
+        if not _PLAIN.match(v) or Fraction(v) != Fraction(k):
+            bad.append(["pos", k, v])
+    fixk, posk = {k for k, _ in P["fix"]}, {k for k, _ in P["pos"]}
+    for s in reprs:
+        if ("e" in s or "E" in s) and (s not in fixk or s not in posk):
+            bad.append(["uncovered", s])
+        elif "e" not in s and "E" not in s and not _PLAIN.match(s):
+            bad.append(["not-a-repr", s])
+    ctx.compare(case, bad, [], "FixOk / ReprForm / coverage of the reprs and tables of this case (hypotheses of C01_norm_reals_close)")
+    texts = sorted(set(reprs) | set(more) | {v for _, v in P["fix"]} | {v for _, v in P["pos"]})
+    texts = [t for t in texts if t not in ("inf", "-inf", "nan")]
+    got = ctx.driver.ask("C01", "real_val", {"ss": texts})
+    diff = [[t, g] for t, g in zip(texts, got) if unrat(g) != Fraction(t)]
+    ctx.compare(case, diff, [], "CR.X.realVal vs fractions.Fraction on the reprs and table entries of this case")
+
+
+def witness_initial_extra(ctx):
+    """The model's witness C01_witness_initial_extra_dropped on the real code: a planning problem whose initial state is an
+    STState (it has the mandatory fields, plus steering_angle) is written with <steeringAngle> and read back as an InitialState
+    without it; and an obstacle does not accept such an initial state at all (the reason the loss is outside the property)."""
+    import numpy as np
+    from commonroad.common.file_reader import CommonRoadFileReader
+    from commonroad.common.file_writer import CommonRoadFileWriter, OverwriteExistingFile
+    from commonroad.common.util import Interval
+    from commonroad.geometry.shape import Rectangle
+    from commonroad.planning.goal import GoalRegion
+    from commonroad.planning.planning_problem import PlanningProblem, PlanningProblemSet
+    from commonroad.scenario.obstacle import DynamicObstacle, ObstacleType
+    from commonroad.scenario.state import CustomState, STState
+    spec = json.load(open(os.path.join(CORPUS_DIR, "C01", "initial_state_without_acceleration.json")))["spec"]
+    sc, _ = G.build(spec)
+    mk = lambda: STState(time_step=0, position=np.array([1.0, 1.75]), orientation=0.1, velocity=8.0, steering_angle=0.25,
+                         yaw_rate=0.25, slip_angle=0.0)
+    pps = PlanningProblemSet([PlanningProblem(100, mk(), GoalRegion([CustomState(time_step=Interval(10, 20))]))])
+    path = os.path.join(ctx.tmpdir(), "witness.xml")
+    CommonRoadFileWriter(sc, pps, decimal_precision=4).write_to_file(path, OverwriteExistingFile.ALWAYS)
+    written = "<steeringAngle>" in open(path).read()
+    _, pps2 = CommonRoadFileReader(path).open()
+    back = pps2.planning_problem_dict[100].initial_state
+    r = call(DynamicObstacle, 7, ObstacleType.CAR, Rectangle(4.5, 1.8), mk(), None)
+    case = {"witness": "initial_extra"}
+    ctx.tag("witness:initial-extra")
+    ctx.compare(case, {"written": written, "read_back_has_it": back.has_value("steering_angle"), "class": type(back).__name__,
+                       "obstacle_accepts_other_state_class": r[0] == "ok"},
+                {"written": True, "read_back_has_it": False, "class": "InitialState", "obstacle_accepts_other_state_class": False},
+                "real code vs C01_witness_initial_extra_dropped / C01_initial_extra_dropped (and the reason it is outside the property)")
+    # the model reads the same file as the reader does (steeringAngle ignored)
+    correspond(ctx, case, spec, 4, path, sc, pps, sc, pps2, compare_write=True)
+
+
+def correspond(ctx, case, spec, d, path, sc, pps, sc2, pps2, compare_write=True):
     """whole file: model encode vs the written tree; model decode of the written tree vs what the reader returned;
     model round trip vs norm (the statement of C01_xml_roundtrip_whole_file, executed)"""
     from lxml import etree
@@ -465,6 +536,7 @@ def correspond(ctx, case, spec, d, path, sc, pps, sc2, pps2):
     rt = ctx.driver.ask("C01", "roundtrip_file", {"fcfg": fcfg, "file": fil})
     nm = ctx.driver.ask("C01", "norm_file", {"fcfg": fcfg, "file": fil})
     ctx.compare(case, rt, nm, "CR.X.decodeFile (encodeFile x) vs CR.X.normFile x (the statement of C01_xml_roundtrip_whole_file, executed)")
+    check_tables(ctx, case, d, fcfg["P"], list(R.seen), list(R2.seen))
     import datetime
     today = datetime.datetime.today()
     if root.get("date") not in (today.strftime("%Y-%m-%d"), (today - datetime.timedelta(days=1)).strftime("%Y-%m-%d")):
@@ -488,6 +560,7 @@ def run(ctx):
         case = json.load(open(p))
         tags_of(ctx, case["spec"], case["precision"])
         judge(ctx, case["spec"], case["precision"], path)
+    witness_initial_extra(ctx)
     gen = G.Gen(ctx.rng, three_d=0.08)
     for k in range(ctx.n(400)):
         spec = gen.gen_spec()
